@@ -159,21 +159,22 @@ class Program:
                         from .inline import _relink as _rl
                         _rl(fn, getattr(fn, "_parent", None), m)
                     from .tempfree import _coalesce_copies
-                    for _round in range(3):
+                    for _round in range(4):
                         if not normalize_function(fn):
                             break
                         if _round == 0:
                             self.tempfree.append("%s.%s" % (mn, q))
                         # substitution can expose idioms (x = np.unique(ids); x.size): normalise again
-                        from .idioms import normalize, _flatten
+                        from .idioms import normalize, _flatten, normalize_loops
                         from .inline import _relink
                         from .prenorm import normalize_calls
+                        normalize_loops(fn)
                         fn.body = _flatten([normalize(normalize_calls(st)) for st in fn.body])
                         _relink(fn, getattr(fn, "_parent", None), m)
                         # ... and copies that only became visible now (n = (a, b)[1] -> n = b)
-                        if not _coalesce_copies(fn):
-                            break
+                        _coalesce_copies(fn)
                         _relink(fn, getattr(fn, "_parent", None), m)
+                        # (next round: the re-normalised body may offer new single-use temporaries - a loop that became a comprehension, an unrolled table)
 
     def _inline_new_helpers(self):
         """functions that are not in the frozen inventory are transparent: inline them into their callers (sa/inline.py)"""
@@ -189,11 +190,11 @@ class Program:
                 for fn in lst:
                     new = inl.inline_function(fn, mn)
                     if new is not fn:
-                        from .idioms import normalize
+                        from .idioms import normalize, normalize_loops, _flatten
                         from .prenorm import normalize_calls
-                        fn.body = [normalize(normalize_calls(st)) for st in new.body]
-                        from .idioms import _flatten
-                        fn.body = _flatten(fn.body)
+                        fn.body = new.body
+                        normalize_loops(fn)
+                        fn.body = _flatten([normalize(normalize_calls(st)) for st in fn.body])
                         _relink(fn, getattr(fn, "_parent", None), m)
                         self.inlined.append("%s.%s" % (mn, q))
         # a helper whose every call site was inlined is analysed in the context of its callers only
@@ -216,6 +217,19 @@ class Program:
             if inl.used.get((hm, hq), 0) > 0 and hq.split(".")[-1] not in remaining:
                 self.absorbed.add((hm, hq))
         self.absorbed |= inl.absorbed_local
+        # @contextmanager helpers spliced in at every `with`: analysed in the context of their users only
+        for name, (hm, hq, hf) in inl.cm_helpers.items():
+            if inl.used.get((hm, hq), 0) > 0:
+                left = False
+                for mn, m in self.modules.items():
+                    for q, lst in m.all_functions.items():
+                        for fn in lst:
+                            if fn is hf:
+                                continue
+                            if any(isinstance(n, ast.Name) and n.id == name and isinstance(n.ctx, ast.Load) for n in ast.walk(fn)):
+                                left = True
+                if not left:
+                    self.absorbed.add((hm, hq))
 
     def module(self, name):
         if name not in self.modules:
